@@ -25,6 +25,7 @@ type HistTrace struct {
 	// failed (with the index of the recorded step after which it was checked).
 	VerifyFail string
 	VerifyStep int
+	VerifyKind string // kind reported for VerifyFail (default: iteration)
 }
 
 // Execute runs the history on a fresh in-memory database.
@@ -64,6 +65,13 @@ func Execute(h *History) *HistTrace {
 			return ht
 		}
 		ht.Steps = append(ht.Steps, tr)
+	}
+	if ViewAudit && ht.VerifyFail == "" && len(ht.Steps) > 0 {
+		if msg := AuditViews(x); msg != "" {
+			ht.VerifyFail = msg
+			ht.VerifyStep = len(ht.Steps) - 1
+			ht.VerifyKind = KindAudit
+		}
 	}
 	return ht
 }
@@ -277,6 +285,9 @@ func Compare(ht *HistTrace, ms []ModelStep) Verdict {
 	}
 	if ht.VerifyFail != "" {
 		v.Kind, v.Step = KindVerify, ht.VerifyStep
+		if ht.VerifyKind != "" {
+			v.Kind = ht.VerifyKind
+		}
 		v.Detail = ht.VerifyFail
 	}
 	return v
